@@ -1,5 +1,6 @@
 import SwcVerif.Props.C05
 import SwcVerif.Props.C05Gen
+import SwcVerif.Props.C05Wrap
 #print axioms C05.machine_eq_pre
 #print axioms C05.sort_ok
 #print axioms C05.sort_perm
@@ -14,3 +15,5 @@ import SwcVerif.Props.C05Gen
 #print axioms RefineSort.sort_refines
 #print axioms C05.generated_sort_ok
 #print axioms C05.generated_eq_model
+#print axioms C05.generated_sort_tree_eq
+#print axioms C05.generated_sort_tree_ok
